@@ -2,6 +2,7 @@ import Driver.Common
 import GqlModel.Subscription
 /-! Driver for C15.
 in : {"req": {"kind":"stream","events":[[kind,n],…]} | {"kind":"oneShot","r":RES} | {"kind":"invalid","r":RES},
+      "expect": [canonical result of event i, …] (optional; used by events of kind 99: [99,i]),
       "acts": ["produce"|"produceCtx"|"deliver"|"cancel"|"closeSource"|"observeCancel"|"finish"|"pause"|"resume"|"stop", …]}
      RES = {"t":"mapped","k":kind,"n":n} | {"t":"ctx"} | {"t":"opaque","s":"<canonical result>"}
 out: {"valid":bool, "failedAt":index|null, "failedAct":name, "delivered":[canonical result…], "closed":bool,
@@ -28,12 +29,18 @@ def cfg : Cfg E R := { exec := fun e => .mapped e.1 e.2, ctxErr := .ctx }
 def errEntry (path : List String) (isCtx : Bool) : Json :=
   Json.mkObj [("path", Json.arr (path.map Json.str).toArray), ("ctx", Json.bool isCtx)]
 
-def canonical : R → Json
+def canonical (expect : Array String) : R → Json
   | .mapped 0 n => Json.mkObj [("data", Json.mkObj [("tick", Json.mkObj [("n", Json.num (n : JsonNumber)), ("twice", Json.num ((2 * n : Nat) : JsonNumber)), ("must", Json.num 1)])]),
                               ("errs", Json.arr #[])]
   | .mapped 1 _ => Json.mkObj [("data", Json.mkObj [("tick", Json.null)]), ("errs", Json.arr #[errEntry ["tick"] false])]
   | .mapped 2 n => Json.mkObj [("data", Json.mkObj [("tick", Json.mkObj [("n", Json.num (n : JsonNumber)), ("twice", Json.null), ("must", Json.num 1)])]),
                               ("errs", Json.arr #[errEntry ["tick", "twice"] false])]
+  | .mapped 99 n =>
+    -- subscription with variables: the reference result of event n (the same selection executed on the event
+    -- with the raw variables), supplied with the request
+    (match Json.parse (expect.getD n "\"missing reference\"") with
+     | .ok j => j
+     | .error _ => Json.str "unparsable reference")
   | .mapped 3 _ => Json.mkObj [("data", Json.mkObj [("tick", Json.null)]), ("errs", Json.arr #[errEntry ["tick", "must"] false])]
   | .mapped k _ =>
     -- closure look-alike payloads: the root resolver reports what it was given (nil arrives as an empty map)
@@ -87,6 +94,9 @@ def handle (j : Json) : Except String Json := do
   let req ← decReq (← j.getObjVal? "req")
   let names ← (← Driver.getArr j "acts").toList.mapM (fun a => a.getStr?)
   let acts ← names.mapM decAct
+  let expect ← match Driver.getOpt j "expect" with
+    | some a => (← a.getArr?).mapM (fun x => x.getStr?)
+    | none => pure #[]
   let (s, failed) := runPrefix (init req) 0 acts
   let fwd := match s.fwd with | .idle => "idle" | .holding _ => "holding" | .final _ => "final" | .done => "done"
   let cons := match s.consumer with | .reading => "reading" | .slow => "slow" | .stopped => "stopped"
@@ -95,7 +105,7 @@ def handle (j : Json) : Except String Json := do
     ("valid", Json.bool failed.isNone),
     ("failedAt", match failed with | none => Json.null | some i => Json.num i),
     ("failedAct", match failed with | none => Json.null | some i => Json.str (names.getD i "")),
-    ("delivered", Json.arr (s.delivered.map canonical).toArray),
+    ("delivered", Json.arr (s.delivered.map (canonical expect)).toArray),
     ("closed", Json.bool s.closedSeen), ("alive", Json.bool s.goroutineAlive),
     ("terminal", Json.bool (s.terminal cfg)), ("cancelled", Json.bool s.cancelled),
     ("fwd", Json.str fwd), ("consumer", Json.str cons), ("pending", Json.num s.pending.length),
